@@ -148,8 +148,24 @@ def judge_probes(chk: Check, owner: str, probes):
             uniq.append(pr)
     rnd = random.Random(chk.seed)
     cap = 4000 if chk.tier == "quick" else 40000
+    # the probes of one helper value (bounds / at / at_band / beyond) are judged together: they are kept or dropped as a group, and the
+    # order is made independent of the order in which the worker processes delivered them
+    groups = {}
+    for pr in uniq:
+        gk = json.dumps([pr.get("kind"), pr.get("st"), pr.get("helper"), pr.get("token"), pr.get("value")] if pr.get("helper")
+                        else {k: pr.get(k) for k in ("kind", "st", "st2", "ev", "act", "acts", "what")}, sort_keys=True, default=list)
+        groups.setdefault(gk, []).append(pr)
+    keys = sorted(groups)
     if len(uniq) > cap:
-        uniq = rnd.sample(uniq, cap)
+        keep, n = [], 0
+        for gk in rnd.sample(keys, len(keys)):
+            if n + len(groups[gk]) > cap:
+                continue
+            keep.append(gk)
+            n += len(groups[gk])
+        keys = sorted(keep)
+    order = {"bounds": 0, "at": 1, "at_band": 2, "beyond": 3}
+    uniq = [pr for gk in keys for pr in sorted(groups[gk], key=lambda x: order.get(x.get("tag"), 9))]
     tl = [pr for pr in uniq if pr["kind"] in ("step", "liqstep", "liqrun")]
     verdicts = []
     if tl:
@@ -208,7 +224,7 @@ def judge_probes(chk: Check, owner: str, probes):
         elif tag == "at":
             if pr["code_out"] != "ok":
                 chk.violation(f"AaveV3Market|{h}_not_accepted|", f"{what} is rejected by the code", rep)
-            elif v != "ok" and band.get((json.dumps(pr["st"], sort_keys=True), h, pr["token"])) != "ok":
+            elif v != "ok" and band.get((json.dumps(pr["st"], sort_keys=True), h, pr["token"])) not in ("ok", None):
                 chk.violation(f"AaveV3Market|{h}_beyond_limit|", f"{what} exceeds the limit of the specification", rep)
         elif tag == "beyond":
             if v == "reject" and pr["code_out"] == "ok":
